@@ -268,7 +268,16 @@ func c08xrd(c *Ctx, rule, pkg, stopName string, composite bool) {
 			c.R.Check(inst[0].Block().Dominates(list[0].Block()), site(inst[0])+" before-list", c.pos(inst[0].Pos()),
 				"DeleteAllOf(instances) dominates the List whose emptiness gates Stop", "the instance deletion does not precede the emptiness test")
 		} else {
-			c.requireCross(site(inst[0])+" nonempty", inst[0], nonEmpty, "the len(l.Items)>0 edge")
+			// a delete inside the range over the listed items only runs when there are any
+			ranged := cfgx.LoopOf(inst[0].Block()) != nil && flow.Default.Any(cfgx.CallArgs(inst[0])[1], func(v ssa.Value) bool {
+				ia, ok := v.(*ssa.IndexAddr)
+				return ok && flow.Root(ia.X) == flow.Root(underIface(cfgx.CallArgs(list[0])[1]))
+			})
+			if ranged {
+				c.R.OK(site(inst[0])+" nonempty", c.pos(inst[0].Pos()), "the claims are deleted inside the range over the listed items")
+			} else {
+				c.requireCross(site(inst[0])+" nonempty", inst[0], nonEmpty, "the len(l.Items)>0 edge")
+			}
 			reach, w := cfgx.ReachableFromEdges(nonEmpty, d, nil, c.posf())
 			c.R.Check(!reach, site(inst[0])+" requeue", c.pos(inst[0].Pos()), "after deleting instances the reconcile returns (requeue) without reaching Stop/Delete(crd)", "the CRD delete is reachable from the non-empty edge", w...)
 		}
